@@ -99,7 +99,7 @@ CLAIMED["C15"] = (
     "Proof: key/value round trip with last-wins for both use_partition settings and inertness of comment/blank lines for any text and flags (kv_roundtrip, comments_inert); fixed-width round trip at FULL strength — any number of columns, headers that are substrings or duplicates "
     "of others, empty / inner-space / exact-fill cells, junk and footer lines (fixed_roundtrip; old_index_rule_witness documents the repaired defect); keyword_search = exact filter in order with the five matchers pinned by rfl to the regenerated table; "
     "sections() = first-occurrence section names without DEFAULT; case-insensitive option lookup. FALSE of the current code with Lean witnesses = two known findings (DEFAULT option overriding a section's own value; first-of-duplicate DEFAULT inherited). "
-    "Tied only (no theorem yet): parse_delimited_table round trip, INI last-duplicate-wins, calc_offset, every IniConfigFile accessor, the INI grammar on rendered documents (an instance of C19's combinators), string primitives incl. the isspace table over all code points.",
+    "delimited round trips for a delimiter string of any length or white-space gaps (split_join_inverse, delimited_roundtrip, delimited_roundtrip_ws); INI last-duplicate-wins under the decidable side condition defaultsInert, repeated sections merge. Tied only: calc_offset, every IniConfigFile accessor, the INI grammar on rendered documents (an instance of C19's combinators), string primitives incl. the isspace table over all code points.",
     "Trusted: Lean kernel + propext/Classical.choice/Quot.sound; harness/c15.py (generators, renderers duplicated in Python, canonicalisers, oracle); translate/matchers.py; ASCII lower(); string search values and parent=None in keyword_search.",
     "DESIGN.md §6 C15")
 
@@ -132,7 +132,7 @@ CLAIMED["C20"] = (
     "Lean 4 model of the parsr query engine and predicate algebra (two evaluators: interpreted and compiled); theorems by structural and forest induction with the invariants Cut, SubPerm and firstOcc; in-process correspondence with the real Entry/Result/ConfigComponent/Boolean objects on generated forests, parsed nginx documents and boolean expressions, with an independent bottom-up chain oracle",
     "Proof (all trees, queries, options, values, opaque callables): select = the enumeration of matching chains (select_exact, select_mem_iff), each document occurrence returned at most once; document order for every non-deep query, every single-level deep query and multi-level deep queries whose first-level matches do not nest "
     "(select_document_order_partial, chained_document_order_partial); the roots loop = first-occurrence de-duplication of the furthest ancestors; find / [] reduce to select; compiled = interp on non-raising expressions (more strongly whenever the compiled body returns, incl. caseless predicates on non-strings — the repaired defect); "
-    "a raise makes the compiled form False and a raising predicate does not match. FALSE of the current code, each with a _partial theorem, a full-statement def and a negation witness replayed on the implementation (known findings): document order for nested deep matches, chained deep search on nested results returns duplicates, roots of parentless nodes are None. "
+    "a raise makes the compiled form False and a raising predicate does not match. the roots clause at full strength after repair 9796838 (roots_are_nodes). FALSE of the current code, each with a _partial theorem, a full-statement def and a negation witness replayed on the implementation (known findings): document order for nested deep matches, chained deep search on nested results returns duplicates. "
     "Tied: 13.5k cases per quick run over 5 streams.",
     "Trusted: Lean kernel + propext/Classical.choice/Quot.sound; harness/c20.py (generators, adapter observing via len + indexing, token serialisation); opaque callables as a parameter; values restricted to None/int/str; str.lower as an ASCII + Latin-1 table checked per run; where/choose/nth/upto, Result.roots/parents, isin, matches, bool/float values and int/slice indexing are outside the model.",
     "DESIGN.md §6 C20")
@@ -146,6 +146,14 @@ CLAIMED["C06"] = (
     "Trusted: Lean kernel + propext/Classical.choice/Quot.sound; harness/c06.py (generators, kernel-location ground truth via O_PATH + /proc/self/fd, canonicalisers, oracle); os.path.realpath = kernel resolution with no race (checked on every generated path); glob, exists/access/isdir, shlex/PATH lookup and the ignore regex are parameters; "
     "\\w and isspace ASCII only; commands are recorded, not executed (except cp and grep); the deny clause is the string match the code documents.",
     "DESIGN.md §6 C06")
+
+CLAIMED["C12"] = (
+    "Lean 4 model of Response construction, rule.process, the evaluator observer, get_response and get_response_of_types; refinement of the engine-shaped fold to per-rule outcomes plus additive counting; response-class table regenerated by probing the live classes; correspondence on generated real @rule sets through SingleEvaluator, InsightsEvaluator, JsonFormat and YamlFormat",
+    "Proof (all inputs): validation iff and the order of the checks; stub exactness; exclusive single outcome with exact per-rule tally (outcome_exclusive, at_most_once, nothing_iff); results[t], skips and exceptions equal exactly the rules of that outcome, with their fields (counted_once, skips_exact, exceptions_exact, entry_carries); "
+    "metadata merge order; complete heading characterisation of get_response and of the type filter, and the option glue; table facts about the live classes by decide. Partial: 'a skip entry names its missing dependencies' holds only when the skip's own rendering fits the limit "
+    "(skips_name_missing_partial + witness, known finding skip-stub-anonymous). Tied: ~18k compared answers per quick run over 6 streams (repr length, constructors with the limit steered around the length, adapter options through real argparse, rule-set state, formatter output, adapters) + oracle on every case.",
+    "Trusted: Lean kernel + propext/Classical.choice/Quot.sound; translate/responses.py (probing the live classes); harness/c12.py; run order handed over from the engine (C01); rule bodies are fixed actions (C02); values None/bool/int/str/list[str]; repr of non-ASCII assumed printable.",
+    "DESIGN.md §6 C12")
 
 PENDING_REASON = "check not built yet in this round (planned: DESIGN.md §6); no claim is made until its model, theorems and correspondence run exist"
 
